@@ -3,6 +3,7 @@ package main
 import (
 	"fmt"
 	"go/token"
+	"go/types"
 	"strings"
 
 	"golang.org/x/tools/go/ssa"
@@ -237,6 +238,35 @@ func rulesTraverseStep(c *Ctx, r *Report) {
 			}
 		}
 	})
+	// the child index is as wide as len(): a narrower counter wraps on a node with many children
+	var idxType types.Type
+	instrs(f, func(in ssa.Instruction) {
+		if st, ok := in.(*ssa.Store); ok {
+			if a := s.expr(st.Addr); a.Op == "field" && a.Leaf == "f1" {
+				if fa, ok := st.Addr.(*ssa.FieldAddr); ok {
+					idxType = fa.Type().Underlying().(*types.Pointer).Elem()
+				}
+			}
+		}
+	})
+	wide := false
+	if bt, ok := idxType.(*types.Basic); ok {
+		switch bt.Kind() {
+		case types.Int, types.Int64, types.Uint, types.Uint64, types.Uintptr:
+			wide = true
+		}
+	}
+	if idxType != nil {
+		r.check(wide, "STEP", where, "child index width", c.pos(f.Pos()), "the child index has type "+idxType.String()+", as wide as a slice length", "the child index has type "+idxType.String()+", narrower than a slice length: on a node with more children than it can count it wraps around and children are visited again")
+	}
+	// no explicit panic: traversal has no depth or size limit of its own
+	var panics []string
+	instrs(f, func(in ssa.Instruction) {
+		if pn, ok := in.(*ssa.Panic); ok {
+			panics = append(panics, c.pos(pn.Pos()))
+		}
+	})
+	r.check(len(panics) == 0, "STEP", where, "no explicit panic", c.pos(f.Pos()), "the step function contains no explicit panic: no depth or size limit of its own", fmt.Sprintf("the step function panics explicitly at %v: some trees (e.g. beyond a depth limit) are not traversed", panics))
 	r.check(okPush, "STEP", where, "push next child", c.pos(f.Pos()), "the frame pushed is {step.n.Children[step.i], 0}: children are entered in slice order", "the pushed frame is not {step.n.Children[step.i], 0}")
 	r.check(okInc, "STEP", where, "advance child index", c.pos(f.Pos()), "the parent's child index is advanced by exactly one per push (on the stack's current element)", "the parent's child index is not advanced by one through the stack's element")
 }
